@@ -174,7 +174,9 @@ PROPS["C33"] = {
 
 PROPS["C25"] = {
     "title": "Value and log encodings round-trip safely",
-    "kani": [("kani/api/lib.rs", r"^c25_"), ("kani/storage/wal.rs", r"^c25_")],
+    "kani": [("kani/api/lib.rs", r"^c25_"), ("kani/storage/wal.rs", r"^c25_"),
+             # decode_body on untrusted bytes, variable-length record kinds (shared with C17-O4)
+             ("kani/storage/wal.rs", r"^c17_o4_[qta]_ty(9|11|12|13|14|15)_")],
     "e2": [],
     "functions_encoded": ["nervusdb_api::PropertyValue::encode", "PropertyValue::decode", "PropertyValue::decode_recursive",
                           "nervusdb_storage::wal::WalRecord::encode_body", "WalRecord::decode_body"],
@@ -448,3 +450,6 @@ PROPS["C02"]["level_text"] = PROPS["C02"]["level_text"].replace(
     "well-bracketed logs never fail.",
     "well-bracketed logs never fail; replay of the committed list applies whole transactions only (a transaction is skipped entirely iff it is "
     "checkpointed, otherwise all its records are applied in order).")
+
+# 8 KiB page harnesses need 3-6 GB of CBMC memory each: run few at a time (62 GB machine, no swap)
+PROPS["C26"]["jobs"] = 5
